@@ -1,11 +1,11 @@
 SPECIFICATION GSpec
 CONSTANTS
   Procs = {"c1", "c2"}
-  Hosts = {"a", "b", "c"}
+  Hosts = {"a", "b"}
   Size = 2
   MaxCalls = 1
-  MaxExpire = 2
-  Kinds = {"lookup", "dial"}
+  MaxExpire = 1
+  Kinds = {"dial"}
   ZeroDuration = FALSE
   Faults = TRUE
 INVARIANTS TypeOK SizeBound ServedFreshAndSequential NoCrossHost RefinesSequential MissReturnsOwnAnswer Emit
